@@ -98,9 +98,48 @@ if not _real.startswith(LOMOND_SRC + os.sep):
 
 import logging as _logging
 _log = _logging.getLogger('lomond')
-_log.addHandler(_logging.NullHandler())
+
+
+class _FormatAndDrop(_logging.Handler):
+    """what an application with logging.basicConfig(level=DEBUG) does to every record, minus the output"""
+
+    def createLock(self):
+        # no handler lock: under the controlled scheduler a thread may be switched out while it formats a record
+        # (Frame.__repr__ is code under test); emit() touches no shared state
+        self.lock = None
+
+    def emit(self, record):
+        try:
+            record.getMessage()
+        except Exception:   # noqa
+            pass
+
+
+_log.addHandler(_FormatAndDrop())
 _log.propagate = False
 _log.setLevel(_logging.CRITICAL + 10)
+
+# per-case environment chosen by the runner (and stored in the case, so that a replay gets the same):
+#   companion: k   - a second, unrelated WebSocket is alive and active between the steps of the observed one
+#   debuglog: True - the application has the 'lomond' logger at DEBUG
+CASE_ENV = {}
+
+
+def apply_case_env(case, idx=None):
+    e = case.get('_env') if isinstance(case, dict) else None
+    if e is None and idx is not None and isinstance(case, dict):
+        e = {}
+        if idx % 6 == 1 and not os.environ.get('VF_NO_COMPANION'):
+            e['companion'] = idx // 6
+        if idx % 6 == 4 and not os.environ.get('VF_NO_DEBUGLOG'):
+            e['debuglog'] = True
+        case['_env'] = e
+    old = CASE_ENV.get('_companion_obj')
+    if old is not None:
+        old.finish()
+    CASE_ENV.clear()
+    CASE_ENV.update(e or {})
+    _log.setLevel(_logging.DEBUG if CASE_ENV.get('debuglog') else _logging.CRITICAL + 10)
 
 from lomond import errors as lerrors  # noqa
 from lomond import events as levents  # noqa
